@@ -98,7 +98,7 @@ func TestC34(t *testing.T) {
 	defer rec.Flush(t)
 	rec.Assume("x509 signature and path validation of the Go standard library is trusted", "TRC payloads in (b) are inserted directly (TRC succession is C35's subject)")
 	defects := []string{"none", "none", "none", "none", "length_1", "length_3", "order_swapped", "as_with_certsign", "as_without_digital_signature", "as_without_timestamping", "as_without_ia", "ca_without_ia", "as_basic_constraints_ca",
-		"ca_pathlen_1", "ca_with_digital_signature", "ca_ends_before_as", "ca_starts_after_as", "as_issued_by_other_ca", "ca_issued_by_unlisted_root", "time_before_as", "time_after_as", "time_after_ca", "time_after_root", "ca_is_root_type"}
+		"ca_pathlen_1", "ca_without_pathlen_constraint", "ca_with_digital_signature", "ca_ends_before_as", "ca_starts_after_as", "as_issued_by_other_ca", "ca_issued_by_unlisted_root", "time_before_as", "time_after_as", "time_after_ca", "time_after_root", "ca_is_root_type"}
 	req := []string{"a_accepted", "b_query_before_trc2", "b_query_in_grace", "b_query_after_grace", "b_latest_not_yet_valid", "b_latest_expired", "b_chain_only_under_predecessor_in_grace", "b_chain_expired", "b_validity_filter"}
 	for _, d := range defects[4:] {
 		req = append(req, "a_defect_"+d)
@@ -148,6 +148,8 @@ func TestC34(t *testing.T) {
 			asMods = append(asMods, func(c *x509.Certificate) { c.BasicConstraintsValid, c.IsCA = true, true })
 		case "ca_pathlen_1":
 			caMods = append(caMods, func(c *x509.Certificate) { c.MaxPathLen, c.MaxPathLenZero = 1, false })
+		case "ca_without_pathlen_constraint":
+			caMods = append(caMods, func(c *x509.Certificate) { c.MaxPathLen, c.MaxPathLenZero = -1, false })
 		case "ca_with_digital_signature":
 			caMods = append(caMods, func(c *x509.Certificate) { c.KeyUsage |= x509.KeyUsageDigitalSignature })
 		case "ca_ends_before_as":
